@@ -261,7 +261,7 @@ def decode_inst(E, m, fc, toks, bi, slot, operand, lidx, mk_jump, zero_of):
                     if type(c) is int: v |= c << i
                     else: v = None; break
                     i += 8
-                if v is None: v = load_cells(cells, n)
+                if v is None: v = load(st, ptr, n) if E.uninit_sym else load_cells(cells, n)
             else:
                 v = load(st, ptr, n)
             if isptr:
